@@ -3,6 +3,7 @@ package props
 import (
 	"fmt"
 	"math/rand"
+	"strings"
 	"sync/atomic"
 
 	"wmverif/sched"
@@ -28,7 +29,7 @@ func gcDrive(c *Ctx, scs []gcScenario) error {
 	sched.SetYield(150)
 	var gates, gated int64
 	Parallel(len(scs), func(i int) {
-		if c.Only != "" && scs[i].Class != c.Only {
+		if c.Only != "" && !strings.HasPrefix(scs[i].Class, c.Only) {
 			return
 		}
 		reached := gcRun(runs[i], scs[i], c.SubRng(i))
